@@ -198,6 +198,22 @@ func runCheck(o *options) int {
 		}
 		return false
 	}
+	work := filepath.Join(o.verif, "work", fmt.Sprintf("%s-%d", o.prop, os.Getpid()))
+	os.MkdirAll(work, 0o755)
+	if !o.keep {
+		defer os.RemoveAll(work)
+	}
+	{
+		// candidate invariants matter where the contract's loops are cut: in the contract's own check
+		// and in call-site sweeps through its function
+		rel := map[*ssa.Function]bool{}
+		for _, fn := range sweepTargets(p, db, o.prop) {
+			for f := fn; f != nil; f = f.Parent() {
+				rel[f] = true
+			}
+		}
+		houdiniNotes = houdini(p, db, o, work, func(fc *FuncContract) bool { return hasProp(fc.Props) || rel[fc.Fn] })
+	}
 	var units []*Unit
 	engineErr := ""
 	gen := func(name string, f func() *Unit) {
@@ -278,11 +294,6 @@ func runCheck(o *options) int {
 	}
 	tGen := time.Since(t0).Seconds() - tLoad
 
-	work := filepath.Join(o.verif, "work", fmt.Sprintf("%s-%d", o.prop, os.Getpid()))
-	os.MkdirAll(work, 0o755)
-	if !o.keep {
-		defer os.RemoveAll(work)
-	}
 	solveAll(units, work, o.tier, o.seed, o.workers)
 	tSolve := time.Since(t0).Seconds() - tLoad - tGen
 
@@ -363,6 +374,9 @@ func report(o *options, p *Prog, db *ContractDB, units []*Unit, known []KnownFin
 	for _, u := range units {
 		funcs = append(funcs, u.Kind+" "+u.Name)
 		assumptions = append(assumptions, u.Assumptions...)
+		if len(houdiniNotes) > 0 {
+			assumptions = append(assumptions, houdiniNotes...)
+		}
 		externs = append(externs, u.UsedExterns...)
 		contracts = append(contracts, u.UsedContracts...)
 		inlined = append(inlined, u.Inlined...)
@@ -454,6 +468,17 @@ func report(o *options, p *Prog, db *ContractDB, units []*Unit, known []KnownFin
 	if nObl == 0 {
 		broken = append(broken, "no obligations generated (vacuous check)")
 	}
+	var standins []interface{}
+	if o.only == "" && !o.baseline {
+		var sf []string
+		standins, sf = runBoundedStandins(o)
+		broken = append(broken, sf...)
+		for _, s := range standins {
+			if m, ok := s.(map[string]interface{}); ok && m["ran"] == true {
+				fmt.Printf("bounded stand-in %v: %v (%v instances; bound: %v) - not counted as proved\n", m["name"], m["result"], m["instances"], m["bound"])
+			}
+		}
+	}
 	if o.baseline && len(broken) > 0 {
 		fmt.Println("baseline NOT written: the check is broken")
 	} else if o.baseline {
@@ -486,7 +511,7 @@ func report(o *options, p *Prog, db *ContractDB, units []*Unit, known []KnownFin
 		o.prop, o.tier, len(units), nObl, nDis, len(knownHits), len(violations), nVac, tLoad, tGen, tSolve, wall)
 	if o.only == "" {
 		writeEvidence(o, db, reports, funcs, uniq(assumptions), uniq(unsupported), uniq(externs), uniq(contracts), uniq(inlined), uniq(callsites), byBackend, solverTime,
-			nObl, nDis, nVac, len(violations), knownHits, broken, wall)
+			nObl, nDis, nVac, len(violations), knownHits, broken, wall, standins)
 	}
 	switch {
 	case len(broken) > 0:
@@ -496,6 +521,8 @@ func report(o *options, p *Prog, db *ContractDB, units []*Unit, known []KnownFin
 	}
 	return 0
 }
+
+var houdiniNotes []string
 
 func autoKind(k string) bool {
 	switch k {
@@ -548,7 +575,10 @@ func modelSummary(m string) []string {
 }
 
 func writeEvidence(o *options, db *ContractDB, reports []oblReport, funcs, assumptions, unsupported, externs, contracts, inlined, callsites []string,
-	byBackend map[string]int, solverTime float64, nObl, nDis, nVac, nViol int, knownHits, broken []string, wall float64) {
+	byBackend map[string]int, solverTime float64, nObl, nDis, nVac, nViol int, knownHits, broken []string, wall float64, standins []interface{}) {
+	if standins == nil {
+		standins = []interface{}{}
+	}
 	dir := filepath.Join(o.verif, "evidence")
 	if o.evidenceDir != "" {
 		dir = o.evidenceDir
@@ -601,7 +631,7 @@ func writeEvidence(o *options, db *ContractDB, reports []oblReport, funcs, assum
 			"contract_files":            db.Files,
 			"samples":                   samples,
 			"all_obligations":           reports,
-			"bounded_standins":          []string{},
+			"bounded_standins":          standins,
 		},
 	}
 	b, _ := json.MarshalIndent(ev, "", " ")
